@@ -40,6 +40,10 @@ def universes():
     u["tag_len2000"] = make_event("A", 1, 108, [["r", "y" * 2000]], "")
     u["tag_longname"] = make_event("A", 1, 109, [["client", "z" * 600]], "")
     u["tag_nonstr"] = make_event("A", 1, 110, [["t", 5], ["e", None]], "")
+    # tag items the SQL tag table cannot bind (nested value, object, integer beyond 64 bits): accepted or refused, but consistently
+    u["tag_nested"] = make_event("A", 1, 111, [["t", ["x"]], ["e", "ab" * 32]], "")
+    u["tag_object"] = make_event("A", 1, 112, [["p", {"a": 1}]], "")
+    u["tag_bigint"] = make_event("A", 1, 113, [["t", 2 ** 70]], "")
     v = {}
     v["reg"] = u["reg"]
     for nm, t in (("t_2p31m1", 2 ** 31 - 1), ("t_2p31", 2 ** 31), ("t_2p32m1", 2 ** 32 - 1), ("t_2p32", 2 ** 32),
@@ -52,6 +56,9 @@ def universes():
 
 def wellformed_in_range(e):
     if not R.authentic(e)[0]:
+        return False
+    # NIP-01: tags are arrays of strings; an authentic event with other tag items may be refused (consistently)
+    if not all(isinstance(x, str) for t in e["tags"] for x in t):
         return False
     if not (0 < e["created_at"] < SAFE_INT and 0 <= e["kind"] < SAFE_INT):
         return False
@@ -138,6 +145,11 @@ def cases(tier):
     names = list(CHECK.U()["U6"])
     for first in names:
         out.append(("conformance", "aiosqlite", [first], 2))
+    # same-connection histories (no state restore in between: per-connection state of the handler stays alive)
+    lin = LINEAR if tier == "quick" else LINEAR + ["meta_t10", "prep_abs_t10", "prep_a_t20", "tag_nested", "badsig"]
+    for backend in ("sql", "kv"):
+        for first in lin:
+            out.append(("linear", backend, [first], 3 if tier == "quick" else 4))
     return out
 
 
@@ -145,7 +157,44 @@ def describe(case):
     return _base_describe(case)
 
 
+LINEAR = ["reg", "del_reg", "repl_t10", "repl_t20", "eph", "reg_b"]
+
+
+def run_linear(case):
+    import itertools
+    from .. import seq
+
+    _, backend, (first,), depth = case
+    uni = CHECK.U()["U6"]
+    lin = LINEAR if depth == 3 else LINEAR + ["meta_t10", "prep_abs_t10", "prep_a_t20", "tag_nested", "badsig"]
+    sess = seq.session(backend)
+    orc = oracle(backend, uni, sess)
+    viol = []
+    n = 0
+    for rest in itertools.product(lin, repeat=depth - 1):
+        names = [first] + list(rest)
+        sess.reset()
+        hist = []
+        for nm in names:
+            pre = sess.dump()
+            r = sess.submit(uni[nm])
+            post = sess.dump()
+            n += 1
+            for v in orc(hist, pre, nm, r, post):
+                viol.append({"case": "%s|U=U6|same-connection" % backend, "clause": v["clause"], "sig": "%s@%s" % (v["sig"], ",".join(hist + [nm])),
+                             "detail": v["detail"] + " | same connection, history=" + ",".join(hist + [nm])})
+            hist.append(nm)
+    uniq = {}
+    for v in viol:
+        uniq.setdefault((v["clause"], v["sig"]), v)
+    return {"id": "linear|%s|%s" % (backend, first), "viol": list(uniq.values()), "outcome": None, "evals": n, "states": 0, "transitions": n, "nontrivial": True,
+            "desc": describe(case), "extra": {"same_connection_submissions": n},
+            "sample": {"case": "linear", "backend": backend, "first": first, "submissions": n}}
+
+
 def run_case(case):
+    if case[0] == "linear":
+        return run_linear(case)
     if case[0] != "conformance":
         return _base_run(case)
     from .. import sqlconf
